@@ -572,6 +572,7 @@ type RunResult struct {
 func Run(root string, p *Project, probes *hermes.VerifProbes) *RunResult {
 	runMu.Lock()
 	defer runMu.Unlock()
+	vh.Crumb("whole-run", map[string]interface{}{"root": root, "project": p})
 	hermes.VerifProbe = probes
 	defer func() { hermes.VerifProbe = nil }()
 	session := hermes.NewHermesSession()
